@@ -7,7 +7,7 @@ A check for property X reports the records in BAD_X; all checks share this pipel
 import os, time, json, subprocess, shutil, hashlib
 from vlib import *
 
-ARENA_PROPS = ["C01", "C02", "C03", "C05", "C07", "C10", "C12", "C13", "C14", "C18"]
+ARENA_PROPS = ["C01", "C02", "C03", "C05", "C07", "C10", "C12", "C13", "C14", "C15", "C18"]
 
 
 def extract_behaviours(tlc_out, path, start_id=1):
@@ -180,7 +180,7 @@ def _arena_pipeline(tier, focus, variants, key):
         raise ToolError("TLC saw %d records, replayer wrote %d" % (checked, stats["lines"]))
     bad = {p: tagged_index_sets(results, parts, "BAD_" + p) for p in ARENA_PROPS}
     drift = tagged_index_sets(results, parts, "DRIFT")
-    counters = {k: tagged_int(results, k) for k in ("N_EXIT", "N_REALLOC", "N_NEWCHUNK", "N_RECLAIM", "N_FAIL", "N_CLAIMED_OP", "N_ALIGNED", "N_REUSE")}
+    counters = {k: tagged_int(results, k) for k in ("N_EXIT", "N_REALLOC", "N_NEWCHUNK", "N_RECLAIM", "N_FAIL", "N_CLAIMED_OP", "N_ALIGNED", "N_REUSE", "N_PREP", "N_COMMIT")}
     shutil.rmtree(d, ignore_errors=True)
     mc.out = mc.out[-4000:]
     return {"wd": wd, "beh": beh, "obs": obs, "mc": mc, "nsim": nsim, "stats": stats, "crashes": crashes, "bad": bad,
